@@ -10,6 +10,7 @@ Steps (in a scratch git worktree of /repo outside /repo and /verif, removed afte
                                           or when the patch touches run/model.py / icg_gym*.py / feature_extractors.py)
 """
 import json
+import os
 import shutil
 import subprocess
 import sys
@@ -37,7 +38,8 @@ subprocess.run(["git", "-C", "/repo", "worktree", "add", "-q", "--detach", str(w
 ran = []
 try:
     def run_demo():
-        r = subprocess.run(["/venv/bin/python", str(demo)], cwd=wt, capture_output=True, text=True, timeout=600)
+        r = subprocess.run(["/venv/bin/python", str(demo)], cwd=wt, capture_output=True, text=True, timeout=1800,
+                           env=dict(os.environ, OMP_NUM_THREADS="1", PYTHONPATH=str(wt)))
         return r.returncode, (r.stdout + r.stderr)[-400:]
     rc0, out0 = run_demo()
     ran.append(f"demo on clean tree: exit {rc0}")
@@ -50,11 +52,12 @@ try:
     touched = [l[6:] for l in patch.read_text().splitlines() if l.startswith("+++ b/")]
     need_learn = full or any(t.endswith(("run/model.py", "icg_gym.py", "icg_gym_linear.py", "feature_extractors.py", "run/learn.py")) for t in touched)
     xml = wt / "r.xml"
-    cmd = ["/venv/bin/python", "-m", "pytest", "-q", "-p", "no:cacheprovider", "--timeout=900", "--continue-on-collection-errors",
-           f"--junitxml={xml}", "-n", "8"]
+    cmd = ["/venv/bin/python", "-m", "pytest", "-q", "-p", "no:cacheprovider", "--timeout=3000", "--continue-on-collection-errors",
+           f"--junitxml={xml}", "-n", os.environ.get("CONFIRM_JOBS", "6")]
     if not need_learn:
         cmd += ["--deselect", "incomplete_cooperative/tests/test_run_learn.py"]
-    subprocess.run(cmd, cwd=wt, capture_output=True, text=True)
+    env = dict(os.environ, OMP_NUM_THREADS="1", MKL_NUM_THREADS="1")
+    subprocess.run(cmd, cwd=wt, capture_output=True, text=True, env=env)
     base = json.load(open("/root/.vp/BASELINE.json"))
     stable = set(base["stable_pass"])
     if not need_learn:
